@@ -262,12 +262,20 @@ theorem coord_step_mu (s s' : Sys) (h : Inv s) (hs : coordStep s = some s') : mu
     omega
   | spawnChk =>
     simp only [coordStep, hp] at hs
+    -- the continuation is `top` or (fused end of the source) `source`: both rank below `spawnChk`
     split at hs <;> simp at hs <;> subst hs
-    · simp only [mu, hp, dropPot, remOf, inPush, pcRank, reduceCtorEq, ↓reduceIte,
-        List.length_append, List.length_singleton, sumW_append, sumW, rank]
-      omega
-    · simp only [mu, hp, dropPot, remOf, inPush, pcRank, reduceCtorEq, ↓reduceIte]
-      omega
+    · by_cases hf : s.cfg.endFused = true ∧ s.nextDispatch + 1 = s.cfg.units.length
+      · simp only [mu, hp, hf, and_self, dropPot, remOf, inPush, pcRank, reduceCtorEq, ↓reduceIte,
+          List.length_append, List.length_singleton, sumW_append, sumW, rank]
+        omega
+      · simp only [mu, hp, hf, dropPot, remOf, inPush, pcRank, reduceCtorEq, ↓reduceIte,
+          List.length_append, List.length_singleton, sumW_append, sumW, rank]
+        omega
+    · by_cases hf : s.cfg.endFused = true ∧ s.nextDispatch + 1 = s.cfg.units.length
+      · simp only [mu, hp, hf, and_self, dropPot, remOf, inPush, pcRank, reduceCtorEq, ↓reduceIte]
+        omega
+      · simp only [mu, hp, hf, dropPot, remOf, inPush, pcRank, reduceCtorEq, ↓reduceIte]
+        omega
   | recvReading =>
     cases hc : s.chan with
     | nil => simp [coordStep, hp, hc] at hs
